@@ -40,7 +40,7 @@ func genC15(cfg Config, ws *WorldSet, i, perWorld int) C15Case {
 	setup := "{W}/" + world.Setup
 	form := sim.Pick(r, []string{"rel-pkgdir", "rel-pkgdir", "rel-modroot", "abs", "gofile", "dot-rel-pkgdir"})
 	cwd, in, gofile := InputForm(form, setup)
-	iv := Invocation{Dry: fs&1 != 0, Print: fs&2 != 0, Log: fs&4 != 0, Cwd: cwd, Input: in, GoFile: gofile, FlagOrder: r.Intn(2)}
+	iv := Invocation{Dry: fs&1 != 0, Print: fs&2 != 0, Log: fs&4 != 0, Cwd: cwd, Input: in, GoFile: gofile, FlagOrder: r.Intn(6)}
 	kind := sim.Pick(r, c15Kinds)
 	pkgDir := filepath.Dir(setup)
 	if fs&8 != 0 {
